@@ -303,6 +303,41 @@ theorem jdelete {S : List Nat} {p : Policy} {live : List Nat} (h : JInv S p live
       rw [retire_other _ _ _ exo] at this
       exact ⟨⟨(h.alive x).mpr ⟨hx, this⟩, by simpa using exo⟩, ha⟩
 
+/-- **an expired value** (the timer wheel hands the node to cache.evictNode): the table unlinks and retires it, the size policy's
+    `delete` is called directly — no write event, no eviction pass -/
+theorem jexpire {S : List Nat} {p : Policy} {live : List Nat} (h : JInv S p live) (old : Nat) (ho : old ∈ live) :
+    JInv S (delete (retire p old) old) (live.filter (· != old)) := by
+  have r0 : Reach S (retire p old) := Reach.retire old h.reach
+  have r1 : Reach S (delete (retire p old) old) := Reach.delete old r0
+  have hk := kill_makeDead (retire p old) old (reach_inv r0).c
+  refine ⟨r1, ?_, List.Nodup.sublist List.filter_sublist h.nodup, ?_⟩
+  · intro x hx hna
+    by_cases exo : x = old
+    · rw [exo]; exact makeDead_dead _ old
+    · have e : ((delete (retire p old) old).node x).st = (p.node x).st := by
+        show ((makeDead (retire p old) old).node x).st = _
+        rw [hk.2.2 x exo, retire_other _ _ _ exo]
+      rw [e] at hna ⊢; exact h.quiet x hx hna
+  · intro x
+    rw [List.mem_filter]
+    constructor
+    · rintro ⟨hx, hne⟩
+      have exo : x ≠ old := by simpa using hne
+      have e : ((delete (retire p old) old).node x).st = (p.node x).st := by
+        show ((makeDead (retire p old) old).node x).st = _
+        rw [hk.2.2 x exo, retire_other _ _ _ exo]
+      rw [e]; exact (h.alive x).mp hx
+    · rintro ⟨hx, ha⟩
+      have exo : x ≠ old := fun e => by
+        rw [e] at ha
+        have : ((delete (retire p old) old).node old).st = .dead := makeDead_dead _ old
+        rw [this] at ha; exact NState.noConfusion ha
+      have e : ((delete (retire p old) old).node x).st = (p.node x).st := by
+        show ((makeDead (retire p old) old).node x).st = _
+        rw [hk.2.2 x exo, retire_other _ _ _ exo]
+      rw [e] at ha
+      exact ⟨(h.alive x).mpr ⟨hx, ha⟩, by simpa using exo⟩
+
 /-- **a read, a hill-climber run, SetMaximum** (nothing created or removed by the table), then the eviction pass and reaction -/
 theorem jmove {S : List Nat} {p p' : Policy} {live : List Nat} (h : JInv S p live) (hr : Reach S p') (hm : Dn p p') :
     JInv S (evictNodes p') (react (evictNodes p') live) := by
@@ -321,7 +356,7 @@ theorem jmove {S : List Nat} {p p' : Policy} {live : List Nat} (h : JInv S p liv
 /-! ### every sequential history -/
 
 inductive JOp where
-  | insert (id key w : Nat) | replace (id old key w : Nat) | remove (old : Nat)
+  | insert (id key w : Nat) | replace (id old key w : Nat) | remove (old : Nat) | expire (old : Nat)
   | read (id : Nat) | climb | setMax (m : BitVec 64)
 
 structure JState where
@@ -344,6 +379,8 @@ def jstep (s : JState) : JOp → JState
     if old ∉ s.live then s else
     let p' := evictNodes (delete (retire s.p old) old)
     { s with p := p', live := react p' (s.live.filter (· != old)) }
+  | .expire old =>
+    if old ∉ s.live then s else { s with p := delete (retire s.p old) old, live := s.live.filter (· != old) }
   | .read id => let p' := evictNodes (access s.p id); { s with p := p', live := react p' s.live }
   | .climb => let p' := evictNodes (Impl.Policy.climb s.p); { s with p := p', live := react p' s.live }
   | .setMax m => let p' := evictNodes (setMaximumSize s.p m); { s with p := p', live := react p' s.live }
@@ -370,6 +407,13 @@ theorem jstep_inv (s : JState) (op : JOp) (h : JInv s.S s.p s.live) : JInv (jste
     · have h2 : old ∈ s.live := Classical.byContradiction hc
       simp only [h2, not_true_eq_false, ↓reduceIte]
       exact jdelete h old h2
+  | expire old =>
+    unfold jstep
+    by_cases hc : old ∉ s.live
+    · simp only [hc, not_false_eq_true, ↓reduceIte]; exact h
+    · have h2 : old ∈ s.live := Classical.byContradiction hc
+      simp only [h2, not_true_eq_false, ↓reduceIte]
+      exact jexpire h old h2
   | read id => exact jmove h (Reach.access id h.reach) (Dn.of_mv (mv_access _ id (reach_inv h.reach).c))
   | climb => exact jmove h (Reach.climb h.reach) (Dn.of_mv (mv_climb _ (reach_inv h.reach).c))
   | setMax m => exact jmove h (Reach.setmax m h.reach) (Dn.of_mv (mv_setMaximumSize _ m))
